@@ -531,6 +531,7 @@ impl<'a> Ex<'a> {
                     }
                     // M6b: the provided Iterator methods agree with the next() sequence
                     crate::iterproto::check(ctx, "tags", &|| bi.tags(), &|t: &multiboot2_common::DynSizedStructure<multiboot2::TagHeader>| (t as *const _ as *const u8 as usize, core::mem::size_of_val(t)), 4096, true);
+                    crate::iterproto::check_clone(ctx, "tags", &|| bi.tags(), &|t: &multiboot2_common::DynSizedStructure<multiboot2::TagHeader>| (t as *const _ as *const u8 as usize, core::mem::size_of_val(t)), 4096);
                     return;
                 }
                 Out::Val(Some(t)) => {
